@@ -24,12 +24,13 @@ passed = set()
 for tc in ET.parse(sys.argv[1]).getroot().iter('testcase'):
     if not any(ch.tag in ('failure', 'error', 'skipped') for ch in tc):
         passed.add(f"{tc.get('classname')}::{tc.get('name')}")
-print(len(base - passed))
+m=sorted(base - passed)
+print(len(m), *m[:3])
 PY
 )
 rm -f $out /tmp/demo_$id.out
 echo "RESULT $id demo_clean=$d0 demo_patched=$d1 suite_missing=$suite msg=[$msg]"
-if [ "$d0" = "0" ] && [ "$d1" != "0" ] && [ "$suite" = "0" ]; then
+if [ "$d0" = "0" ] && [ "$d1" != "0" ] && [ "${suite%% *}" = "0" ]; then
   mkdir -p /verif/seeded/$id
   cp $src/patch.diff $src/demo.py /verif/seeded/$id/
   [ -f $src/notes.md ] && cp $src/notes.md /verif/seeded/$id/notes.md
